@@ -35,6 +35,29 @@ static bool once_recipe(std::string& why) {
     }
     return false;
 }
+// 127 helpers are in flight (their +1 steps are done by hand inside the winner's function); one more real caller arrives: it must wait, not add a 128th reference
+static bool once_overflow_recipe(std::string& why) {
+    tbb::collaborative_once_flag flag; std::atomic<bool> bad{false}; std::uintptr_t seen = 0, runner_bits = 0;
+    std::thread extra;
+    auto fn = [&] {
+        runner_bits = flag.m_state.load() & ~std::uintptr_t(127);
+        for (int i = 0; i < 127; ++i) flag.m_state.fetch_add(1);                 // what 127 helpers' CAS(expected, expected+1) steps do
+        extra = std::thread([&] { tbb::collaborative_call_once(flag, [] {}); });
+        auto* runner = tbb::detail::d1::collaborative_once_runner::from_bits(runner_bits);
+        for (int i = 0; i < 300 && !bad; ++i) {
+            std::uintptr_t st = flag.m_state.load();
+            // a lifetime guard on the runner exists only for a caller that added a reference; none of the 127 hand-made references took one
+            if ((st & ~std::uintptr_t(127)) != runner_bits || runner->m_ref_count.load() != 0) { bad = true; seen = st; }
+            else std::this_thread::sleep_for(1ms);
+        }
+        for (int i = 0; i < 127; ++i) flag.m_state.fetch_sub(1);
+    };
+    tbb::collaborative_call_once(flag, fn);
+    extra.join();
+    if (bad) { char buf[300]; std::snprintf(buf, sizeof buf, "it incremented the state word %#lx (count field already 127), carrying into the runner pointer bits %#lx, and went on to use the runner (lifetime guard taken)", (unsigned long)(runner_bits | 127), (unsigned long)runner_bits);
+               why = std::string("collaborative_call_once with 127 helper references outstanding: one more caller took a reference; ") + buf; return true; }
+    return false;
+}
 static bool ets_recipe(std::string& why) {
     tbb::enumerable_thread_specific<int> ets([] { return 7; }); std::atomic<int> bad{0};
     std::vector<std::thread> ts;
@@ -45,7 +68,8 @@ static bool ets_recipe(std::string& why) {
 }
 int main(int argc, char** argv) {
     std::string job = argc > 1 ? argv[1] : "", why;
-    if (job.rfind("once", 0) == 0) { if (once_recipe(why)) { std::printf("REPRODUCED class=call-once-returns-early %s\n", why.c_str()); return 0; } }
+    if (job.rfind("once", 0) == 0) { if (once_overflow_recipe(why)) { std::printf("REPRODUCED class=call-once-reference-overflow %s\n", why.c_str()); return 0; }
+        if (once_recipe(why)) { std::printf("REPRODUCED class=call-once-returns-early %s\n", why.c_str()); return 0; } }
     else if (ets_recipe(why)) { std::printf("REPRODUCED class=ets %s\n", why.c_str()); return 0; }
     if (once_recipe(why)) { std::printf("REPRODUCED class=call-once-returns-early %s\n", why.c_str()); return 0; }
     std::printf("NOT-REPRODUCED\n"); return 0;
